@@ -30,16 +30,16 @@ Theorem C03_entry_compiles : forall sigs a, forallb sig_wf sigs = true -> analyz
 Proof. exact entry_compiles. Qed.
 Print Assumptions C03_entry_compiles.
 
-(* FULL STATEMENT (false of the faithful model, see C03_refuted_kw):
+(* FULL STATEMENT (false of the faithful model, see C03_refuted_hole):
      for every set of Python-valid signatures the analyzer accepts and every call shape (k, K) the generated def binds,
      the body forwards exactly the supplied positionals in order (keyword-supplied positionals at their positions),
      exactly the supplied keywords, each with its own object, and the lookup key covers exactly the supplied arguments:
        run_entry sigs self k K = ROut o -> exists key fpos fkw, o = OCall key fpos fkw /\ fwd_ok sigs self k K key fpos fkw = true.
-   PROVED: the same on the domain dom_fwd = complement of KF-02's class: it is not the case that a positional parameter
-   is omitted while a keyword is supplied that is keyword-only or names a positional beyond the first omitted one.
-   (DESIGN.md guessed "no optional positional omitted, or no keyword supplied"; the code is better than that: keywords
-   naming the positionals that directly follow the supplied ones are forwarded by position.)  In particular the body
-   never fails (NameError / fall-off) on a bound shape in the domain. *)
+   PROVED: the same on the domain dom_fwd = complement of KF-31's class: it is not the case that a positional parameter
+   is omitted while a keyword names a positional beyond the first omitted one.  Since the repair of KF-02 the domain
+   contains every shape with an omitted optional positional and keyword-only arguments (required or optional), and
+   keywords naming the positionals that directly follow the supplied ones.  In particular the body never fails
+   (NameError / fall-off) on a bound shape in the domain. *)
 Theorem C03_forward_partial : forall sigs self k K o,
   forallb sig_wf sigs = true -> sigs <> [] -> (forall s, In s sigs -> m_self s = self) ->
   dom_fwd sigs k K = true -> run_entry sigs self k K = ROut o ->
@@ -47,7 +47,8 @@ Theorem C03_forward_partial : forall sigs self k K o,
 Proof. exact forward_partial. Qed.
 Print Assumptions C03_forward_partial.
 
-(* the class is exact: on every bound shape outside the domain some supplied keyword argument is neither forwarded
+(* the class is exact: on every bound shape outside the domain some supplied keyword argument (one that names a
+   positional parameter) is neither forwarded
    positionally nor by keyword, and is absent from the lookup key *)
 Theorem C03_forward_outside : forall sigs self k K o,
   forallb sig_wf sigs = true -> sigs <> [] -> (forall s, In s sigs -> m_self s = self) ->
@@ -68,31 +69,31 @@ Theorem C03_bind_accepts : forall sigs self k K s a,
 Proof. exact bind_accepts. Qed.
 Print Assumptions C03_bind_accepts.
 
-(* PROVED (lookup): inside dom_fwd the key the body builds passes the arity / required-keyword filter of
+(* PROVED (lookup), for every bound shape: the key the body builds passes the arity / required-keyword filter of
    MultiTypeMap.mro for every method that accepts the shape, and every keyword in the key is a keyword-only parameter of
    that method (whether the classes match is another component's job).  The filter is however not consulted for the
    empty key: C03_refuted_zero. *)
-Theorem C03_admit_partial : forall sigs self k K s key fpos fkw,
+Theorem C03_admit : forall sigs self k K s key fpos fkw,
   forallb sig_wf sigs = true -> (forall s, In s sigs -> m_self s = self) -> In s sigs ->
-  accepts s k K = true -> dom_fwd sigs k K = true ->
+  accepts s k K = true ->
   run_entry sigs self k K = ROut (OCall key fpos fkw) ->
   arity_ok s key = true /\ (forall n, In n (key_names key) -> In n (sig_kw_names s)).
 Proof. exact admit_partial. Qed.
-Print Assumptions C03_admit_partial.
+Print Assumptions C03_admit.
 
-(* KF-02: def f(x: int, y: int = 7, *, k: int = 9); f(1, k=2): accepted by the method and by the generated def, but the
-   keyword is not forwarded and the method runs with its own default for k *)
-Theorem C03_refuted_kw :
+(* KF-31: def f(x: int, u: int = 1, /, y: int = 2); f(1, y=3): accepted by the method and by the generated def, but the
+   early exit for the omitted u forwards only x; the method runs with its own default for y *)
+Theorem C03_refuted_hole :
   exists sigs self k K,
     forallb sig_wf sigs = true /\ (exists s, In s sigs /\ accepts s k K = true) /\
-    (exists a, analyze sigs = inr a /\ kw_documented a K = true) /\ In 4 K /\
+    (exists a, analyze sigs = inr a /\ kw_documented a K = true) /\ In 1 K /\
     exists key fpos fkw,
       run_entry sigs self k K = ROut (OCall key fpos fkw) /\
       fwd_ok sigs self k K key fpos fkw = false /\
-      fkw = [] /\
+      fpos = [SPos 0] /\ fkw = [] /\
       dispatch compat_all sigs self k K = DRan key fpos fkw 0 [Some (SPos 0); None; None].
-Proof. exact refuted_kw. Qed.
-Print Assumptions C03_refuted_kw.
+Proof. exact refuted_hole. Qed.
+Print Assumptions C03_refuted_hole.
 
 (* KF-03: def f(x: int = 5); f(): the entry point correctly forwards nothing, the method passes the arity filter for the
    empty key, but the empty-tuple branch of the lookup answers "No method" *)
